@@ -90,6 +90,11 @@ def run_case(scn, ctx):
             fmt_sets.append(frozenset(fm))
         if len(set(fmt_sets)) >= 2:
             feats.add("format_change")
+        if not expected:
+            # no file path was ever recorded (only directories, or -sf on an empty folder wrote nothing): there is
+            # nothing to summarise and the tool writes no packing list - outside the statement's domain
+            ctx.event("no_file_recorded_not_applicable")
+            return w.trace
         src_before = w.asc_files(top)
         snap_before = w.snapshot(top)
         res = w.flatten(top, "_flat/dest")
